@@ -3,35 +3,100 @@ KERNELS = {'C06_broadcast': dict(src='kernels/C06_broadcast.cpp', flags=['-DNDEB
 def _pair(bs, bsr, maxd=4, maxe=4, idem=False, **kw):
     c = {'BS': bs, 'BSR': bsr, 'MAXD': maxd, 'MAXE': maxe}
     if idem: c['IDEM'] = 1
-    c.update(kw); return c
+    c.update(kw)
+    if 'vec' in bs:   # std::vector operands: keep the bound of the std::/nmtools loops at max dim + 1, only the harness' own 4-iteration loops get 5
+        c['_unwind'] = max(c.get('NA', maxd), c.get('NB', maxd)) + 1
+        c['_unwindset'] = ['in_shape4.0:5', 'same.0:5', 'np_bshape.0:5', 'h_pair.0:5', 'h_pair.1:5']
+    return c
 _ARR = [_pair('k_bs_arr%d_arr%d' % (da, db), 'k_bs_arr%d_arr%d' % (db, da), NA=da, NB=db, idem=(da == db)) for da in (1, 2, 3, 4) for db in (1, 2, 3, 4)]
-_ARRDYN = [_pair('k_bs_arr%d_sv' % da, 'k_bs_sv_arr%d' % da, NA=da) for da in (1, 2, 3, 4)] + [_pair('k_bs_arr%d_vec' % da, 'k_bs_vec_arr%d' % da, NA=da, NB=db, NOSYM=1, maxe=3) for da, db in ((1, 3), (3, 0), (4, 1))] + [_pair('k_bs_vec_arr%d' % db, 'k_bs_arr%d_vec' % db, NA=da, NB=db, NOSYM=1, maxe=3) for da, db in ((2, 2), (1, 4))]
+_ARRDYN = [_pair('k_bs_arr%d_sv' % da, 'k_bs_sv_arr%d' % da, NA=da) for da in (1, 2, 3, 4)] + [_pair('k_bs_arr%d_vec' % da, 'k_bs_vec_arr%d' % da, NA=da, NB=db, NOSYM=1, maxe=3) for da, db in ((1, 3), (3, 0))] + [_pair('k_bs_vec_arr%d' % db, 'k_bs_arr%d_vec' % db, NA=da, NB=db, NOSYM=1, maxe=3) for da, db in ((2, 2),)]
 P = 'every extent 1..MAXE symbolic; run-time dims %s symbolic; fixed (std::array) dims are per-query constants NA/NB'
 HARNESSES = [
  dict(name='pair', src='harnesses/C06.c', func='h_pair', kernels=['C06_broadcast'], unwind=7,
       bounds='index::broadcast_shape(a,b) for static_vector<size_t,4> pairs, std::vector pairs, static_vector with std::vector; ' + P % '0..MAXD' +
              '; checks NumPy success/result, symmetry (swapped call), and with IDEM idempotence bs(a,a)==a and absorption bs(a,bs(a,b))==bs(a,b)',
-      quick=[_pair('k_bs_sv_sv', 'k_bs_sv_sv', idem=True)]),
+      quick=[_pair('k_bs_sv_sv', 'k_bs_sv_sv', idem=True), _pair('k_bs_sv8_sv8', 'k_bs_sv8_sv8', maxd=8, maxe=2, CAP=8, NOSYM=1, _unwind=11)],
+      thorough=[_pair('k_bs_sv8_sv8', 'k_bs_sv8_sv8', maxd=6, maxe=3, CAP=8, idem=True, _unwind=11), _pair('k_bs_sv_sv', 'k_bs_sv_sv', maxe=8, idem=True)]),
  dict(name='pair_vec', src='harnesses/C06.c', func='h_pair', kernels=['C06_broadcast'], unwind=7,
       bounds='index::broadcast_shape for std::vector x std::vector and static_vector x std::vector (both orders): the dims of the std::vector operands are per-query constants NA/NB '
              '(symbolic std::vector lengths exhaust 6 GB), enumerated over 0..3 x 0..3 (quick: a spread of 6 pairs; thorough: all of 0..4 x 0..4); extents 1..MAXE symbolic',
-      quick=[_pair('k_bs_vec_vec', 'k_bs_vec_vec', NA=a, NB=b, NOSYM=1, maxe=3) for a, b in ((0, 2), (1, 1), (2, 3), (3, 1), (4, 2))] +
-            [_pair('k_bs_sv_vec', 'k_bs_vec_sv', NB=2, NOSYM=1, maxe=3, maxd=3), _pair('k_bs_vec_sv', 'k_bs_sv_vec', NA=3, NOSYM=1, maxe=3, maxd=3)],
+      quick=[_pair('k_bs_vec_vec', 'k_bs_vec_vec', NA=a, NB=b, NOSYM=1, maxe=3) for a, b in ((0, 2), (1, 1), (2, 3))] +
+            [_pair('k_bs_sv_vec', 'k_bs_vec_sv', NA=2, NB=3, NOSYM=1, maxe=3), _pair('k_bs_vec_sv', 'k_bs_sv_vec', NA=3, NB=1, NOSYM=1, maxe=3)],
       thorough=[_pair('k_bs_vec_vec', 'k_bs_vec_vec', NA=a, NB=b, NOSYM=1) for a in range(5) for b in range(5)] +
-               [_pair('k_bs_sv_vec', 'k_bs_vec_sv', NB=b, NOSYM=1) for b in range(5)] + [_pair('k_bs_vec_sv', 'k_bs_sv_vec', NA=a, NOSYM=1) for a in range(5)]),
+               [_pair('k_bs_sv_vec', 'k_bs_vec_sv', NB=b, NOSYM=1, maxd=3, maxe=3) for b in range(4)] + [_pair('k_bs_vec_sv', 'k_bs_sv_vec', NA=a, NOSYM=1, maxd=3, maxe=3) for a in range(4)]),
  dict(name='pair_arr', src='harnesses/C06.c', func='h_pair', kernels=['C06_broadcast'], unwind=7,
       bounds='index::broadcast_shape(a,b) for std::array<size_t,DA> x std::array<size_t,DB>, every (DA,DB) in 1..4 x 1..4 (16 instantiations, per-query constants); every extent 1..MAXE symbolic; symmetry against the (DB,DA) instantiation; idempotence when DA==DB',
       quick=_ARR),
  dict(name='pair_mixed', src='harnesses/C06.c', func='h_pair', kernels=['C06_broadcast'], unwind=7,
       bounds='index::broadcast_shape for std::array<size_t,DA> (DA=1..4 per-query constant) with static_vector<size_t,4> of symbolic dim 0..MAXD, and with std::vector of per-query constant dim NB (5 (DA,NB) pairs); both argument orders (symmetry)',
-      quick=_ARRDYN),
+      quick=_ARRDYN, thorough=[_pair('k_bs_arr4_vec', 'k_bs_vec_arr4', NA=4, NB=1, NOSYM=1, maxe=3), _pair('k_bs_vec_arr4', 'k_bs_arr4_vec', NA=1, NB=4, NOSYM=1, maxe=3)]),
+ dict(name='pair_ct', src='harnesses/C06.c', func='h_pair', kernels=['C06_broadcast'], unwind=7,
+      bounds='index::broadcast_shape with one compile-time constant operand (tuple of ct: (2,1,3) and (2,3,2,3), per-query constants) against a static_vector of symbolic dim 0..4 / a std::array<.,2>, both orders; '
+             'and std::array<clipped_size_t<4>,2> (symbolic values 1..4) with std::array<size_t,3>, both orders; extents 1..MAXE symbolic',
+      quick=[_pair('k_bs_ct213_sv', 'k_bs_sv_ct213', NA=3, FIXA='2,1,3'), _pair('k_bs_sv_ct213', 'k_bs_ct213_sv', NB=3, FIXB='2,1,3'), _pair('k_bs_ct2323_sv', 'k_bs_ct2323_sv', NA=4, FIXA='2,3,2,3', NOSYM=1),
+             _pair('k_bs_ct213_arr2', 'k_bs_ct213_arr2', NA=3, NB=2, FIXA='2,1,3', NOSYM=1), _pair('k_bs_cl2_arr3', 'k_bs_arr3_cl2', NA=2, NB=3), _pair('k_bs_arr3_cl2', 'k_bs_cl2_arr3', NA=3, NB=2)]),
  dict(name='none', src='harnesses/C06.c', func='h_none', kernels=['C06_broadcast'], unwind=7,
       bounds='broadcast_shape(None, s) and (s, None) (None = shape of a number), s a static_vector of dim 0..4, extents 1..MAXE', quick=[{'MAXE': 4}]),
 ]
-OUTSIDE = []
+def _u(c):   # std::vector operands: small bound for the std::/nmtools loops, 5 for the harness' own 4-iteration loops
+    c['_unwind'] = max([c.get(k, c.get('MAXD', 4)) for k in ('NA', 'NB', 'NC')]) + 1
+    c['_unwindset'] = ['in_shape4.0:5', 'same.0:5', 'np_bshape.0:5'] + ['%s.%d:5' % (f, i) for f in ('h_pair', 'h_triple', 'h_sbt', 'h_ibt') for i in range(4)]
+    return c
+HARNESSES += [
+ dict(name='triple', src='harnesses/C06.c', func='h_triple', kernels=['C06_broadcast'], unwind=7,
+      bounds='three shapes: variadic broadcast_shape(a,b,c), broadcast_shape(broadcast_shape(a,b),c) and broadcast_shape(a,broadcast_shape(b,c)) (maybe-propagating overloads) against the NumPy fold, including agreement on failure; '
+             'static_vector<size_t,4> triples with every dim 0..MAXD and every extent 1..MAXE symbolic; std::array triple (3,1,2); mixed (static_vector, std::array<.,2>, std::vector of constant dim NC); std::vector triples of constant dims',
+      quick=[{'B3': 'sv', 'MAXD': 3, 'MAXE': 3}, {'B3': 'arr', 'NA': 3, 'NB': 1, 'NC': 2, 'MAXE': 4}, ] + [_u({'B3': 'mixed', 'NB': 2, 'NC': 1, 'MAXD': 2, 'MAXE': 3, 'T3ONLY': t}) for t in (1,)] + [_u({'B3': 'vec', 'NA': 1, 'NB': 2, 'NC': 2, 'MAXE': 3, 'T3ONLY': t}) for t in (1,)],
+      thorough=[_u({'B3': 'mixed', 'NB': 2, 'NC': 1, 'MAXD': 2, 'MAXE': 3, 'T3ONLY': t}) for t in (2, 3)] + [_u({'B3': 'vec', 'NA': 1, 'NB': 2, 'NC': 2, 'MAXE': 3, 'T3ONLY': t}) for t in (2, 3)] + [{'B3': 'sv', 'MAXD': 4, 'MAXE': 4}, {'B3': 'sv8', 'MAXD': 6, 'MAXE': 2, 'CAP': 8, '_unwind': 11}, _u({'B3': 'mixed', 'NB': 2, 'NC': 3, 'MAXD': 3, 'MAXE': 3})] + [_u({'B3': 'vec', 'NA': a, 'NB': b, 'NC': c, 'MAXE': 3, 'T3ONLY': t}) for a, b, c in ((0, 1, 2), (2, 2, 2), (3, 1, 2), (1, 3, 3)) for t in (1, 2, 3)]),
+ dict(name='quad', src='harnesses/C06.c', func='h_quad', kernels=['C06_broadcast'], unwind=7,
+      bounds='four static_vector shapes through the variadic fold, dims 0..MAXD, extents 1..MAXE symbolic', quick=[{'MAXD': 2, 'MAXE': 3}], thorough=[{'MAXD': 3, 'MAXE': 3}]),
+ dict(name='sbt', src='harnesses/C06.c', func='h_sbt', kernels=['C06_broadcast'], unwind=7,
+      bounds='index::shape_broadcast_to(a, target): accepted iff NumPy broadcast_to accepts, result == target, free-axes flags; static_vector pairs (dims 0..MAXD symbolic), std::array pairs (per-query constant dims), '
+             'mixed static_vector/std::array; extents 1..MAXE symbolic',
+      quick=[{'SBT': 'k_sbt_sv_sv', 'MAXD': 4, 'MAXE': 4}] + [{'SBT': 'k_sbt_arr%d_arr%d' % (a, b), 'NA': a, 'NB': b, 'MAXE': 4} for a, b in ((1, 1), (1, 3), (2, 2), (2, 3), (3, 3), (3, 2), (2, 4), (4, 4))] +
+            [{'SBT': 'k_sbt_arr2_sv', 'NA': 2, 'MAXD': 4, 'MAXE': 4}, {'SBT': 'k_sbt_sv_arr3', 'NB': 3, 'MAXD': 4, 'MAXE': 4}],
+      thorough=[{'SBT': 'k_sbt_sv_sv', 'MAXD': 4, 'MAXE': 6}]),
+ dict(name='ibt', src='harnesses/C06.c', func='h_ibt', kernels=['C06_broadcast'], unwind=7,
+      bounds='index::broadcast_to(dst index, src shape, dst shape, origin axes) with origin axes from index::origin_axes(shape_broadcast_to(..)) as view::broadcast_to computes them: every broadcastable (src,dst) pair and every in-shape destination index symbolic; '
+             'static_vector (dims 0..MAXD), std::array (2->3, 3->3, 1->4)',
+      quick=[{'IBT': 'k_ibt_sv', 'MAXD': 3, 'MAXE': 3}, {'IBT': 'k_ibt_arr2_arr3', 'NA': 2, 'NB': 3, 'MAXE': 4}, {'IBT': 'k_ibt_arr3_arr3', 'NA': 3, 'NB': 3, 'MAXE': 4}, {'IBT': 'k_ibt_arr1_arr4', 'NA': 1, 'NB': 4, 'MAXE': 3}],
+      thorough=[{'IBT': 'k_ibt_sv', 'MAXD': 4, 'MAXE': 4}]),
+]
+def _v(c, e=3):
+    c['MAXE'] = e; c['_unwindset'] = ['in_cells.0:29', 'k_fill_u32.0:29']; return c
+HARNESSES += [
+ dict(name='vbt', src='harnesses/C06.c', func='h_vbt', kernels=['C06_view'], unwind=7,
+      bounds='view::broadcast_to(hybrid array of dim SD (per-query constant 1..3, capacity 4/16/27), target shape): target kinds static_vector (dim 0..MAXD symbolic), std::array (dim per-query constant); '
+             'source extents, target extents 1..MAXE, all element data and the result index symbolic; both accepted and refused targets',
+      quick=[_v({'SD': 1, 'VBT': 'k_vbt1_sv', 'MAXD': 3}), _v({'SD': 2, 'VBT': 'k_vbt2_sv', 'MAXD': 3}), _v({'SD': 3, 'VBT': 'k_vbt3_sv', 'MAXD': 3}, 2), _v({'SD': 1, 'VBT': 'k_vbt1_arr3', 'NB': 3}), 
+             _v({'SD': 2, 'VBT': 'k_vbt2_arr3', 'NB': 3}), _v({'SD': 2, 'VBT': 'k_vbt2_arr4', 'NB': 4}, 2), _v({'SD': 3, 'VBT': 'k_vbt3_arr2', 'NB': 2}, 2)],
+      thorough=[_v({'SD': 2, 'VBT': 'k_vbt2_arr2', 'NB': 2}), _v({'SD': 3, 'VBT': 'k_vbt3_arr3', 'NB': 3}, 2), _v({'SD': 2, 'VBT': 'k_vbt2_sv', 'MAXD': 4}, 3), _v({'SD': 3, 'VBT': 'k_vbt3_sv', 'MAXD': 4}, 3), _v({'SD': 3, 'VBT': 'k_vbt3_arr3', 'NB': 3}, 3), _v({'SD': 2, 'VBT': 'k_vbt2_arr4', 'NB': 4}, 3)]),
+ dict(name='vbt0', src='harnesses/C06.c', func='h_vbt0', kernels=['C06_view'], unwind=7,
+      bounds='view::broadcast_to(number, static_vector shape of dim 1..MAXD), extents 1..MAXE, value and index symbolic', quick=[{'MAXD': 4, 'MAXE': 3}]),
+ dict(name='vba', src='harnesses/C06.c', func='h_vba', kernels=['C06_view'], unwind=7,
+      bounds='view::broadcast_arrays(a, b) of hybrid arrays of dims (DA,DB) (per-query constants), every extent 1..MAXE, all data and the result index symbolic; compatible and incompatible shapes',
+      quick=[_v({'DA': a, 'DB': b}, 3 if max(a, b) < 3 else 2) for a, b in ((1, 2), (2, 1), (2, 2), (3, 2))],
+      thorough=[_v({'DA': a, 'DB': b}, 3 if max(a, b) < 3 else 2) for a, b in ((1, 1), (2, 3), (3, 1))] + [_v({'DA': a, 'DB': b}, 3) for a, b in ((2, 3), (3, 2), (3, 1))] + [_v({'DA': 2, 'DB': 2}, 4)]),
+ dict(name='vba3', src='harnesses/C06.c', func='h_vba3', kernels=['C06_view'], unwind=7,
+      bounds='view::broadcast_arrays of three hybrid arrays (2-d, 1-d, 3-d), compatible shapes, extents 1..MAXE, data and index symbolic', quick=[], thorough=[_v({}, 2), _v({}, 3)]),
+]
+OUTSIDE = [
+ 'std::vector operands of index::shape_broadcast_to / index::broadcast_to and std::vector targets of view::broadcast_to: no verdict, the solver exhausts 6 GB even at dims (1,1), extents <= 2 (result list + std::vector<bool> free-axes flags); the kernels k_sbt_vec_vec / k_ibt_vec / k_vbt2_vec are kept for later',
+ 'std::vector operands of broadcast_shape with SYMBOLIC dim (exhausts 6 GB): their dims are per-query constants instead (quick: a spread, thorough: all of 0..4 x 0..4)',
+ 'dims > 4 except the static_vector<size_t,8> pair/triple instantiations (dims 0..8 with extents <= 2, dims 0..6 with extents <= 3 in the thorough tier); extents > 4 (8 for static_vector pairs in the thorough tier)',
+ 'the 3-argument index::broadcast_to(indices, src_shape, dst_shape) overload: it does not compile (structured binding of 3 names to the maybe<tuple<2>> returned by shape_broadcast_to); no caller in the library',
+ 'broadcast_arrays with more than three operands; 0-d results of the view level (a number broadcast to shape ()); compile-time constant x compile-time constant shapes (type-level results: C09)',
+ 'index helpers free_axes / gather / nonzero / logical_not are exercised only through shape_broadcast_to / origin_axes / broadcast_to, not on their own',
+]
 ASSUMPTIONS = []
 PENDING_FINDINGS = []
-CLAIM = dict(text='TBD', note='TBD')
+CLAIM = dict(
+ text='For every pair of shapes of dim 0..4 with extents 1..4 (static_vector, every std::array (DA,DB) in 1..4 x 1..4, std::vector with enumerated dims, mixed pairs incl. one compile-time constant or clipped operand, None) '
+      'the solver shows: index::broadcast_shape succeeds exactly when the right-aligned extents are equal or 1 and then returns the per-axis maximum; the swapped call agrees; a shape with itself and with the result changes nothing. '
+      'For every triple (dims 0..3) the variadic call and both groupings equal the NumPy fold, including agreement on failure; four shapes likewise. shape_broadcast_to accepts exactly NumPy\'s broadcast_to targets and marks prepended/stretched axes; '
+      'index::broadcast_to, view::broadcast_to (1-d..3-d hybrid sources, number sources) and view::broadcast_arrays (2 and 3 operands) return at every symbolic index the source element with stretched and prepended axes dropped (symbolic data). No defect found.',
+ note='Bounded: dims 0..4 (8 for one static_vector<.,8> instantiation with extents <= 2), extents 1..4 (3 where noted), view sources up to 3-d with extents <= 3 (2 for 3-d in the quick tier). std::vector kinds only with constant dims and only for broadcast_shape. '
+      'Trusted: clang-14 -O1 lowering, engine/ll2c.py, CBMC; validated per run by gate and witness assertions.')
 for _h in HARNESSES:
     for _t in ('quick', 'thorough'):
         for _c in _h.get(_t, []): _c['H_' + _h['func'][2:].upper()] = 1
